@@ -286,7 +286,7 @@ Example ex_checked_history :
   c8_hyps w_cfg (c8_state0 w_cfg) (with_actions (c8_limit w_cfg) 1 w_unread) = true.
 Proof. vm_compute. reflexivity. Qed.
 Example ex_polite :
-  polite c8req (fun q => rq_method (q_req q)) (fun q => header s_content_length (q_req q)) (fun q => negb (q_nohost q))
+  polite c8req (fun q => rq_method (q_req q)) c8_content_length (fun q => negb (q_nohost q))
          (mkHreq c8req (fst (fst (w_req (B "POST") (B "/f.txt") [(B "content-length", B "10")] (B "0123456789") 4)))
                  (B "0123456789") 4 APassed).
 Proof. unfold polite. split; [reflexivity|]. split; [discriminate|]. vm_compute. reflexivity. Qed.
@@ -307,3 +307,8 @@ Example ex_closing_history :
      (parse_closing [M_GET; M_HEAD; M_GET; M_GET] (written os))
    = Some [(Some 21, B "streamed file content"); (Some 21, []); (Some 12, B "file content"); (None, B "abcdefg")]).
 Proof. vm_compute. repeat split. Qed.
+(** TRACE (and CONNECT) declare no body to kvarn whatever their content-length says *)
+Example ex_trace_declares_nothing :
+  body_length M_OTHER (c8_content_length (fst (fst (w_req (B "TRACE") (B "/f.txt") [(B "content-length", B "5")] (B "hello") 0)))) = 0 /\
+  body_length M_OTHER (c8_content_length (fst (fst (w_req (B "PUT") (B "/f.txt") [(B "content-length", B "5")] (B "hello") 0)))) = 5.
+Proof. vm_compute. split; reflexivity. Qed.
